@@ -3,14 +3,20 @@
 // Case format (one token list per line):
 //   case <id> <initialSize1> <initialSize2>     start a new case with two buffers
 //   A <payload> | P <payload> | R n | RA | RS n | EW n | HW <payload> | UW n | SH n | SW
-//   RF <payload-available-on-fd> | AI k x | PI k x | KI k | RI k | FC from | FE from
+//   RF <payload-available-on-fd> | RFE errno | AI k x | PI k x | KI k | RI k | RN k
+//   FC from | FE from (signed offset of the start pointer from peek()) | FC0 | FE0
+//   RU off (retrieveUntil(peek()+off)) | RAS | TS | IC | AS (second = first)
 //   end
+// readv is interposed (-Wl,--wrap=readv): the wrapper records the iovec array Buffer::readFd
+// offers (count, lengths, base of vec[0]) and can make the call fail with a given errno.
 // Documented preconditions (the asserts on arguments) are tested here on the public
 // observers; a violating op is reported "rejected" and not executed.
 #include "muduo/net/Buffer.h"
 #include "common.h"
 
+#include <errno.h>
 #include <fcntl.h>
+#include <sys/uio.h>
 #include <unistd.h>
 #include <iostream>
 #include <memory>
@@ -24,7 +30,36 @@ static void show(const char* status, const string& out, const Buffer& b)
          b.writableBytes(), b.prependableBytes(), vh::fnv(b.peek(), b.readableBytes()).c_str());
 }
 
-static ssize_t doReadFd(Buffer& b, const string& avail)
+static int g_iovcnt = 0;
+static size_t g_len0 = 0, g_cap = 0;
+static const void* g_base0 = NULL;
+static int g_inject = 0;
+extern "C" ssize_t __real_readv(int fd, const struct iovec* iov, int cnt);
+extern "C" ssize_t __wrap_readv(int fd, const struct iovec* iov, int cnt)
+{
+  g_iovcnt = cnt;
+  g_len0 = cnt > 0 ? iov[0].iov_len : 0;
+  g_base0 = cnt > 0 ? iov[0].iov_base : NULL;
+  g_cap = 0;
+  for (int i = 0; i < cnt; ++i) g_cap += iov[i].iov_len;
+  if (g_inject != 0) { errno = g_inject; return -1; }
+  return __real_readv(fd, iov, cnt);
+}
+
+static const int kErrUnset = -12345;
+
+// "rd:<n>:<iovcnt>:<vec[0].iov_len>:<errno or ->:cap=<sum of offered lengths>"
+static string readResult(const Buffer& before_unused, ssize_t n, int err, const void* expectedBase)
+{
+  char tmp[160];
+  (void)before_unused;
+  string e = (err == kErrUnset) ? "-" : std::to_string(err);
+  snprintf(tmp, sizeof tmp, "rd:%zd:%d:%zu:%s:cap=%zu%s", n, g_iovcnt, g_len0, e.c_str(), g_cap,
+           g_base0 == expectedBase ? "" : ":vec0-not-at-beginWrite");
+  return tmp;
+}
+
+static ssize_t doReadFd(Buffer& b, const string& avail, int* err)
 {
   int fds[2];
   if (::pipe(fds) != 0) { perror("pipe"); exit(3); }
@@ -39,8 +74,7 @@ static ssize_t doReadFd(Buffer& b, const string& avail)
     off += static_cast<size_t>(n);
   }
   ::close(fds[1]);   // so that an empty pipe reads as 0, like EOF
-  int err = 0;
-  ssize_t n = b.readFd(fds[0], &err);
+  ssize_t n = b.readFd(fds[0], err);
   ::close(fds[0]);
   return n;
 }
@@ -66,6 +100,7 @@ int main()
     if (k == "end") { printf("end\n"); fflush(stdout); continue; }
     Buffer& b = *a;
     size_t n = (w.size() > 1 && k != "A" && k != "P" && k != "HW" && k != "RF") ? static_cast<size_t>(atol(w[1].c_str())) : 0;
+    long sn = (w.size() > 1 && (k == "FC" || k == "FE" || k == "RU")) ? atol(w[1].c_str()) : 0;
     if (k == "A") { string d = vh::bytesOfSpec(w[1]); b.append(d.data(), d.size()); show("ok", "-", b); }
     else if (k == "P")
     {
@@ -75,6 +110,42 @@ int main()
     }
     else if (k == "R") { if (n <= b.readableBytes()) { b.retrieve(n); show("ok", "-", b); } else show("rejected", "-", b); }
     else if (k == "RA") { b.retrieveAll(); show("ok", "-", b); }
+    else if (k == "RU")
+    {
+      if (sn >= 0 && static_cast<size_t>(sn) <= b.readableBytes()) { b.retrieveUntil(b.peek() + sn); show("ok", "-", b); }
+      else show("rejected", "-", b);
+    }
+    else if (k == "RN")
+    {
+      if (n > b.readableBytes()) { show("rejected", "-", b); continue; }
+      switch (n)
+      {
+        case 1: b.retrieveInt8(); break;
+        case 2: b.retrieveInt16(); break;
+        case 4: b.retrieveInt32(); break;
+        case 8: b.retrieveInt64(); break;
+        default: fprintf(stderr, "bad width\n"); return 2;
+      }
+      show("ok", "-", b);
+    }
+    else if (k == "RAS")
+    {
+      string s = b.retrieveAllAsString();
+      show("ok", "b:" + vh::fnv(s) + ":" + std::to_string(s.size()), b);
+    }
+    else if (k == "TS")
+    {
+      muduo::StringPiece sp = b.toStringPiece();
+      string s(sp.data(), sp.size());
+      show("ok", "b:" + vh::fnv(s) + ":" + std::to_string(s.size()), b);
+    }
+    else if (k == "IC")
+    {
+      size_t size = b.prependableBytes() + b.readableBytes() + b.writableBytes();
+      if (b.internalCapacity() >= size) show("ok", std::to_string(size), b);
+      else show("ok", "capacity-below-size:" + std::to_string(b.internalCapacity()), b);
+    }
+    else if (k == "AS") { *c = *a; show("ok", "-", b); }
     else if (k == "RS")
     {
       if (n <= b.readableBytes())
@@ -102,8 +173,21 @@ int main()
     else if (k == "RF")
     {
       string d = vh::bytesOfSpec(w[1]);
-      ssize_t r = doReadFd(b, d);
-      show("ok", std::to_string(r), b);
+      int err = kErrUnset;
+      const void* base = b.beginWrite();
+      ssize_t r = doReadFd(b, d, &err);
+      show("ok", readResult(b, r, err, base), b);
+    }
+    else if (k == "RFE")
+    {
+      // errno 9: a really invalid descriptor (the kernel's own EBADF); others: injected by the wrapper
+      int want = atoi(w[1].c_str());
+      int err = kErrUnset;
+      const void* base = b.beginWrite();
+      ssize_t r;
+      if (want == 9) r = b.readFd(-1, &err);
+      else { g_inject = want; r = b.readFd(0, &err); g_inject = 0; }
+      show("ok", readResult(b, r, err, base), b);
     }
     else if (k == "AI" || k == "PI")
     {
@@ -136,10 +220,16 @@ int main()
       snprintf(tmp, sizeof tmp, "i:%lld", v);
       show("ok", tmp, b);
     }
+    else if (k == "FC0" || k == "FE0")
+    {
+      const char* p = (k == "FC0") ? b.findCRLF() : b.findEOL();
+      if (p == NULL) show("ok", "none", b);
+      else { snprintf(tmp, sizeof tmp, "at:%ld", static_cast<long>(p - b.peek())); show("ok", tmp, b); }
+    }
     else if (k == "FC" || k == "FE")
     {
-      if (n > b.readableBytes()) { show("rejected", "-", b); continue; }
-      const char* p = (k == "FC") ? b.findCRLF(b.peek() + n) : b.findEOL(b.peek() + n);
+      if (sn < 0 || static_cast<size_t>(sn) > b.readableBytes()) { show("rejected", "-", b); continue; }
+      const char* p = (k == "FC") ? b.findCRLF(b.peek() + sn) : b.findEOL(b.peek() + sn);
       if (p == NULL) show("ok", "none", b);
       else { snprintf(tmp, sizeof tmp, "at:%ld", static_cast<long>(p - b.peek())); show("ok", tmp, b); }
     }
